@@ -238,6 +238,15 @@ def impl_checker(model, fns):
         return ('err', exc_code(e), type(e).__name__ + ': ' + str(e)[:120])
 
 
+MAX_MODEL_NODES = 4000
+
+
+def too_big(r):
+    """compiled model too large for the extracted model to answer within its per-call timeout (its node look-up is linear
+    in the node id; a few generated schemas expand to > 10^5 nodes)"""
+    return r[0] == 'ok' and len(r[1].nodes) > MAX_MODEL_NODES
+
+
 def with_budget(chk, budget=IMPL_BUDGET):
     chk.model.nodes = CountingList(list(chk.model.nodes), budget)
     return chk
